@@ -61,6 +61,12 @@ CHECKS = {
             "Determinism and schedule independence are properties of Spec/Ref.lean by construction/proof; that the engine refines it is established by differential "
             "comparison (all permutations and schedules of one (workflow, inputs) must end alike and equal Ref.states), not by an operational proof. needs and "
             "backward next are outside Ref (compared with the operational model only).", "5 C04"),
+    "C03": ("Lean 4 theorems: K1 event table (complete xor error, exactly for terminal states), 'a task without catch revive enters a terminal state at most once' for "
+            "every legal gap-free trace (ties the one-terminal-event clause to C02), reference-interpretation laws (completed iff everything beneath is done; finished => "
+            "nothing open), monitor lemmas; the Lean monitor hierMonitor (engine's own parent relation recomputed from the creation trace) is evaluated on the engine's "
+            "creation/transition/event stream and quiescent dumps; stepped runs are compared with the operational model including process events",
+            "Hierarchical completion of the engine under parallel composition is decided by the monitor on engine traces (parallel shapes, every action in one branch "
+            "while siblings are open, keep_processes on/off), not by an operational proof.", "5 C03"),
 }
 
 NOT_YET = {}
